@@ -17,8 +17,10 @@ try:
         t0 = time.time()
         r = subprocess.run(['python3', '/verif/vcheck.py', p, '--tier', tier], capture_output=True, text=True, env=dict(os.environ, VP_DEV='1', VERIF_REPO=WT))
         viol = re.findall(r'query=(\S+): (.*)', r.stdout)
-        res[p] = dict(exit=r.returncode, seconds=round(time.time() - t0), violations=[f"{q} {t[:120]}" for q, t in viol][:8], summary=r.stdout.strip().split('\n')[-1])
-        print(sid, p, tier, 'exit', r.returncode, res[p]['summary']); [print('   ', v) for v in res[p]['violations'][:4]]
+        rr = re.findall(r'real code \([^)]*\): (REPRODUCED|not reproduced|unavailable)', r.stdout)
+        res[p] = dict(exit=r.returncode, seconds=round(time.time() - t0), violations=[f"{q} {t[:120]}" for q, t in viol][:8], summary=r.stdout.strip().split('\n')[-1],
+                      real_code_replay=dict(reproduced=rr.count('REPRODUCED'), not_reproduced=rr.count('not reproduced'), unavailable=rr.count('unavailable')))
+        print(sid, p, tier, 'exit', r.returncode, res[p]['summary'], 'real-replay', res[p]['real_code_replay']); [print('   ', v) for v in res[p]['violations'][:4]]
 finally:
     subprocess.run(['git', '-c', 'submodule.recurse=false', '-C', WT, 'checkout', '--', 'gmlc', 'tests'], check=True)
 mp = f'{d}/meta.json'
